@@ -159,3 +159,25 @@ Proof.
   intros Hm Hs. pose proof (model_refines_spec t line) as E. rewrite Hm, Hs in E. cbn in E. inversion E; subst.
   split; [eapply model_chains_bool; eauto|]. split; [apply str_eqb_eq; reflexivity|apply obs_eqb_refl].
 Qed.
+
+(* ---------- what can be a candidate at all ---------- *)
+
+(* operators, IO numbers and the end of input are never looked up, wherever they come from *)
+Lemma only_words_are_candidates ps k a g c n :
+  decide ps k a g = ATry c n -> k = TWord \/ exists kw, k = TKey kw.
+Proof.
+  intros H. pose proof (decide_try_word _ _ _ _ _ _ H) as Hw.
+  destruct k; try discriminate; eauto.
+Qed.
+
+(* a reserved word at the beginning of a command is taken as such, alias or not *)
+Lemma reserved_word_first_not_candidate kw a g c n : decide PCmd (TKey kw) a g <> ATry c n.
+Proof. destruct kw; discriminate. Qed.
+
+(* the first word of a command is a candidate as a command name; so is the word
+   behind assignments and redirections *)
+Lemma command_word_is_candidate a g :
+  (exists n, decide PCmd TWord a g = ATry true n) /\
+  (forall fn arr, exists n, decide (PSimple true fn arr) TWord a g = ATry true n) /\
+  (forall fn arr, exists n, decide (PSimple false fn arr) TWord a g = ATry false n).
+Proof. repeat split; intros; eexists; reflexivity. Qed.
